@@ -432,4 +432,43 @@ def r6_handed_over_as_read(ctx):
     ctx.floor(n, 4)
 
 
-RULES = [r6_handed_over_as_read, r5_cached_image_never_modified, r1_no_stale_cache, r2_tables_agree, r3_alignment_exhaustive, r4_pure_shift]
+CACHE_SAMPLES = {
+    "/data/frame.npy": False,
+    "relative/frame.fits": False,
+    "C:\\data\\frame.npy": False,
+    "file:///data/frame.npy": False,
+    "local:///data/frame.npy": False,
+    "https://host/data/frame.npy": True,
+    "http://host/data/frame.fits": True,
+    "s3://bucket/frame.npy": True,
+}
+
+
+def r7_no_cached_copy_of_local_files(ctx):
+    """"Reflects the file's content at the time of the run": with the cache option on, prepare_cache_path - evaluated (sa/minieval.py, nothing is run) for a sample of every kind of location - routes only REMOTE locations through fsspec's simplecache (whose copies are keyed by path and never refreshed); local paths are returned unchanged, with or without the option; with the option off nothing is cached at all."""
+    from sa.minieval import Opaque, Record, Undecided, evaluate
+
+    f = ctx.func(f"{LD}:prepare_cache_path")
+    p = f.params[0]
+    n = 0
+    for enabled in (True, False):
+        for url, remote in CACHE_SAMPLES.items():
+            opts = Record(cache_enabled=enabled, cache_folder=None)
+            helpers = {nm: fn_.node for nm, fn_ in f.module.functions.items() if isinstance(fn_.node, ast.FunctionDef) and nm != f.name}
+            try:
+                kind, val = evaluate(f.node, {p: url}, {**helpers, "global_options": opts})
+            except Undecided as exc:
+                raise AnalysisError(f"prepare_cache_path cannot be evaluated for {url!r}: {exc}")
+            n += 1
+            out = val[0] if kind == "return" and isinstance(val, (tuple, list)) and val else None
+            if not isinstance(out, str):
+                ctx.fail(f.qual + f"#cache:{'on' if enabled else 'off'}:{url}", f"for {url!r} the function yields {kind} {val!r:.60}: not a (location, options) pair", where=f, node=f.node)
+                continue
+            cached = "cache::" in out
+            want = enabled and remote
+            ok = cached == want and (cached or out == url)
+            ctx.check(ok, f.qual + f"#cache:{'on' if enabled else 'off'}:{url}", ("cached (remote)" if want else "read from its own location") if ok else (f"the local file {url!r} is opened as {out!r}: a cached copy, keyed by path and never refreshed, hides later changes of the file" if cached and not remote else f"{url!r} is opened as {out!r} with cache_enabled={enabled}"), where=f, node=f.node)
+    ctx.floor(n, 16)
+
+
+RULES = [r7_no_cached_copy_of_local_files, r6_handed_over_as_read, r5_cached_image_never_modified, r1_no_stale_cache, r2_tables_agree, r3_alignment_exhaustive, r4_pure_shift]
